@@ -1,6 +1,7 @@
 """C09: c2mir's preprocessor vs spec/CPP.tla (direction A: TLC-generated cases rendered into C files).
 
 Three families, all generated and decided by TLC from spec/CPP.tla:
+  lex   lines of characters around pp-numbers (0xE+X is one token) lexed by the spec's maximal-munch lexer, then macro-replaced
   mac   macro definitions + invocation text, expected token sequence by Prosser's algorithm with hide sets
   cond  nestings of #if/#ifdef/#ifndef/#elif/#else/#endif with a marker in every group, expected markers
   if    #if expressions over the 64-bit boundary grid, expected truth / value / signedness (spec/lib/W64cpp.tla)
@@ -27,6 +28,7 @@ _Q = [
     ("mac2", "CPP_mc2.cfg", 4, None, None),      # 2 macros (object-like / 1 parameter), lists <= 2, any text <= 3: exhaustive
     ("mac2b", "CPP_mc2b.cfg", 2, None, None),    # 2 macros, lists <= 2 over {x,f,g,(}, balanced text <= 4 (f ( g ) ...): exhaustive
     ("macstr", "CPP_str_mc.cfg", 2, None, None), # stringification with literals and variable spacing: exhaustive
+    ("lex", "CPP_lex_mc.cfg", 2, None, None),    # pp-number texts of <= 4 chunks next to a macro name, plain / argument / # / ##: exhaustive
     ("macsim", "CPP_sim.cfg", 2, 2500, 60),      # 2 macros, lists <= 4, text <= 6: random walks
     ("cond", "CPP_cond_mc.cfg", 1, None, None),  # conditional nestings, 5 directive lines, depth 3: exhaustive
     ("if1", "CPP_if_mc.cfg", 4, None, None),     # one operator over an 18-value grid: exhaustive
@@ -42,6 +44,7 @@ TIERS = {
         [("macsimt", "CPP_sim.cfg", 4, 40000, 60), ("macsim3", "CPP_sim3.cfg", 4, 40000, 60)],
         [("macsimp", "CPP_simp.cfg", 4, 40000, 60), ("condsim", "CPP_cond_sim.cfg", 2, 30000, 40)],
         [("condt", "CPP_cond_t.cfg", 8, None, None)],
+        [("lext", "CPP_lex_t.cfg", 8, None, None), ("lexsim", "CPP_lex_sim.cfg", 2, 20000, 12)],
         [("if1t", "CPP_if_t.cfg", 16, None, None), ("ifsimt", "CPP_if_sim.cfg", 6, 60000, 60)],
     ],
 }
@@ -62,6 +65,7 @@ K_GLUE = "cpp:E_text:space_lost_after_empty_paste_operand"
 K_HANG = "cpp:rescan:painted_arg_reexpanded_past_list_end"
 K_EOR2 = "cpp:rescan:call_args_past_two_list_ends"
 K_EORWS = "cpp:rescan:space_before_list_end_hides_call"
+K_DOTDOT = "cpp:lex:dot_dot_unget_order"
 
 
 def build_c2m():
@@ -121,6 +125,8 @@ def render(c, i):
         L.append("VERIFEND_%d" % i)
         for n in c["names"]:
             L.append("#undef " + n)
+    elif c["fam"] == "lex":
+        L += [m(c["src"]), "VERIFEND_%d" % i]
     elif c["fam"] == "if":
         e = c["full"] if c.get("paren") else c["min"]
         L += ["#if " + e, "T", "#else", "F", "#endif",
@@ -133,9 +139,10 @@ def render(c, i):
     return L
 
 
-PRELUDE = {"if": "#define D 2u\n#define E (-1)\n", "mac": "", "cond": ""}
+PRELUDE = {"if": "#define D 2u\n#define E (-1)\n", "mac": "", "cond": "",
+           "lex": "#define X 1\n#define S(x) #x\n#define T(x) S(x)\n#define C(x,y) x ## y\n#define I(x) x\n"}
 
-TOK = re.compile(r'\s+|([A-Za-z_][A-Za-z_0-9]*|[0-9][A-Za-z_0-9.]*|"(?:[^"\\\n]|\\.)*"|\'(?:[^\'\\\n]|\\.)*\'|##|.)')
+TOK = re.compile(r'\s+|([A-Za-z_][A-Za-z_0-9]*|\.?[0-9](?:[eEpP][+-]|[A-Za-z_0-9.])*|\.\.\.|\+\+|--|"(?:[^"\\\n]|\\.)*"|\'(?:[^\'\\\n]|\\.)*\'|##|.)')
 
 
 def lex(text, c2m):
@@ -197,7 +204,7 @@ def run_file(c2m, cases, base, tag, keep=False):
     st1, a, ec = "ok", {}, set()
     try:
         with open(fn + ".err", "wb") as ferr:
-            p1 = subprocess.run(["/bin/sh", "-c", 'ulimit -f 16384 -t 20 -v 4194304; exec "$0" -E "$1"', c2m, fn],
+            p1 = subprocess.run(["/bin/sh", "-c", 'ulimit -f 16384; ulimit -t 20; ulimit -v 4194304; exec "$0" -E "$1"', c2m, fn],
                                 stdout=subprocess.PIPE, stderr=ferr, timeout=4 if single else 30)
         with open(fn + ".err", "rb") as ferr:
             err = ferr.read(1 << 20).decode("utf-8", "replace")
@@ -253,6 +260,8 @@ def classify(c, exp, got, st1):
     if c["fam"] == "cond":
         return "cpp:cond:wrong_group_selected"
     glue = got is not None and got != exp and despaced(got) == despaced(exp)
+    if "lex_dot_dot" in ft and not st1.startswith("rc") and st1 != "timeout":
+        return K_DOTDOT
     if st1 == "timeout":
         if "call_past_list_end_painted_arg" in ft:
             return K_HANG
@@ -377,7 +386,8 @@ def gen_cases(jobs, stats, maxpar=None):
             fam = o["fam"]
             stats.cnt["emitted_" + fam] += 1
             if o["st"] != "D":
-                stats.cnt["dropped_%s_%s" % (fam, {"U": "unspecified", "I": "illformed", "Q": "oracle_quirk"}[o["st"]])] += 1
+                stats.cnt["dropped_%s_%s" % (fam, {"U": "unspecified", "I": "illformed", "Q": "oracle_quirk",
+                                                   "G": "E_text_would_relex_differently"}[o["st"]])] += 1
                 continue
             out[name].append(o)
     return out, tot_states, tot_distinct
